@@ -91,8 +91,8 @@ where
             return Ok(());
         }
 
-        let mut tmp_int_config1 = self.device.config.int_config.get_config1();
-        let int_enabled = tmp_int_config1.actch_int();
+        let int_config1 = self.device.config.int_config.get_config1();
+        let int_enabled = int_config1.actch_int();
 
         // If the interrupt is enabled and we're trying to change the Data Source to AccFilt1, the ODR must be 100Hz
         if int_enabled 
@@ -103,8 +103,9 @@ where
 
         // Temporarily disable the interrupt, if active
         if int_enabled {
-            tmp_int_config1 = tmp_int_config1.with_actch_int(false);
+            let tmp_int_config1 = int_config1.with_actch_int(false);
             self.device.interface.write_register(tmp_int_config1)?;
+            self.device.config.int_config.set_config1(tmp_int_config1);
         }
 
         // Write the changes
@@ -118,8 +119,9 @@ where
         }
 
         // Re-enable the interrupt, if it was disabled
-        if self.device.config.int_config.get_config1().bits() != tmp_int_config1.bits() {
-            self.device.interface.write_register(self.device.config.int_config.get_config1())?;
+        if self.device.config.int_config.get_config1().bits() != int_config1.bits() {
+            self.device.interface.write_register(int_config1)?;
+            self.device.config.int_config.set_config1(int_config1);
         }
         Ok(())
     }
